@@ -7,6 +7,7 @@ CONSTANTS
   PhysPage <- MCPhys
   Bufs <- MCBufs1
   Ctxs = {1}
+  Queues = {1}
   Ranges <- MCRangesQ
   KWrites <- MCKWritesQ
   MaxCmds = 2
